@@ -51,6 +51,8 @@ def k_explog(run, case):
     else:
         R = gen.rot_of_class(rng, cls)
     th = rm.rot_angle(R)
+    if rng.random() < .3:
+        R = rm.se3(R, rng.normal(size=3))[:3, :3]  # a view into a pose matrix, as evo's callers pass it
     run.seen(case, core.digest(R), nontrivial=th > 0, cls=["explog:" + _angle_class(th)],
              sample={"R": R, "angle": th})
     v = L.so3_log(R)
